@@ -17,7 +17,10 @@ import (
 
 // ---------------------------------------------------------------- PRNG (splitmix64)
 
-type Rng struct{ s uint64 }
+type Rng struct {
+	s     uint64
+	boost int // when > 0 the next Geom draw is a long list (256 .. 255+boost elements), once
+}
 
 func NewRng(seed uint64) *Rng { return &Rng{s: seed*0x9E3779B97F4A7C15 + 0x1234567} }
 func (r *Rng) U64() uint64 {
@@ -81,6 +84,11 @@ func (r *Rng) Bytes(n int) []byte {
 
 // Geom draws a small size: geometric with mean about m, capped.
 func (r *Rng) Geom(m, cap int) int {
+	if r.boost > 0 && cap >= 6 { // armed: this one list is long (more than 255 elements)
+		n := 256 + r.Intn(r.boost)
+		r.boost = 0
+		return n
+	}
 	n := 0
 	for n < cap && r.Intn(m+1) != 0 {
 		n++
